@@ -12,6 +12,7 @@ RULE = ('one evaluation = one driver life in which 2-3 clients send the SAME log
         'NUL, 8-bit data: only equality across segmentations), burst (many short lines at once), hostile (over-long lines, unterminated SB, '
         'floods of IAC: only safety and bounded buffering); telnet, ASCII and binary ports and the console. non-trivial = at least one recv '
         'returned fewer bytes than asked inside a line or negotiation; distinct = distinct (class, port kind, item-kind sequence, cut pattern hash).')
+RULE += (' Later additions: an over-long line with nothing but line ends waiting behind it; console chunks up to 4095 bytes.')
 COMPONENTS = {'real': ['src/comm.c get_user_data/copy_chars/telnet_neg/first_cmd_in_buf/next_cmd_in_buf/add_console_line/process_user_command', 'src/backend.c'],
               'stub': ['kernel recv()/epoll (simulated, explicit segmentation)', 'console worker thread (plan console steps through the real queue + completion post)']}
 ASSUMPTIONS = ['strict expectations mirror docs: CR LF / CR NUL end a line, BS/DEL delete the previous character of the line, telnet negotiation is removed',
